@@ -89,6 +89,15 @@ func ParseReadInputRegistersRequestTCP(data []byte) (*ReadInputRegistersRequestT
 		tmpErr.Packet.Function = FunctionReadInputRegisters
 		return nil, tmpErr
 	}
+	if len(data) < 12 {
+		// length in header matches the data but packet is too short for this function. NB: slicing data beyond
+		// its length would silently read stale bytes from the spare capacity of the underlying buffer
+		tmpErr := NewErrorParseTCP(ErrIllegalDataValue, "received data length too short to be valid packet")
+		tmpErr.Packet.TransactionID = header.TransactionID
+		tmpErr.Packet.UnitID = unitID
+		tmpErr.Packet.Function = FunctionReadInputRegisters
+		return nil, tmpErr
+	}
 	quantity := binary.BigEndian.Uint16(data[10:12])
 	if !(quantity >= 1 && quantity <= 125) { // 0x0001 to 0x007D
 		tmpErr := NewErrorParseTCP(ErrIllegalDataValue, "invalid quantity. valid range 1..125")
